@@ -147,6 +147,43 @@ fn decode<E: EncodedPoint>(bytes: &[u8], checked: bool) -> R<Result<E::Affine, G
     Ok(if checked { e.into_affine() } else { e.into_affine_unchecked() })
 }
 
+/// The encoding object placed at address = K (mod 16): the outcome of decoding must not depend on where the caller
+/// keeps the object.
+#[repr(C, align(16))]
+struct Holder<E, const K: usize> {
+    pad: [u8; K],
+    enc: E,
+}
+
+fn decode_at_k<E: EncodedPoint, const K: usize>(bytes: &[u8], checked: bool) -> R<Result<E::Affine, GroupDecodingError>> {
+    let mut h = Box::new(Holder::<E, K> { pad: [0xa5u8; K], enc: E::empty() });
+    if bytes.len() != E::size() {
+        return Err(format!("encoding needs {} bytes, got {}", E::size(), bytes.len()));
+    }
+    h.enc.as_mut().copy_from_slice(bytes);
+    let h = std::hint::black_box(h);
+    debug_assert_eq!((&h.enc as *const E as usize) % 16, K % 16);
+    Ok(if checked { h.enc.into_affine() } else { h.enc.into_affine_unchecked() })
+}
+
+fn decode_at<E: EncodedPoint>(bytes: &[u8], checked: bool, k: i64) -> R<Result<E::Affine, GroupDecodingError>> {
+    match k {
+        0 => decode::<E>(bytes, checked),
+        1 => decode_at_k::<E, 1>(bytes, checked),
+        2 => decode_at_k::<E, 2>(bytes, checked),
+        3 => decode_at_k::<E, 3>(bytes, checked),
+        4 => decode_at_k::<E, 4>(bytes, checked),
+        5 => decode_at_k::<E, 5>(bytes, checked),
+        6 => decode_at_k::<E, 6>(bytes, checked),
+        7 => decode_at_k::<E, 7>(bytes, checked),
+        8 => decode_at_k::<E, 8>(bytes, checked),
+        9 => decode_at_k::<E, 9>(bytes, checked),
+        12 => decode_at_k::<E, 12>(bytes, checked),
+        15 => decode_at_k::<E, 15>(bytes, checked),
+        _ => Err("placement 0..9, 12, 15".into()),
+    }
+}
+
 /// SplitMix64 — specified identically in the Python generator; used only to
 /// expand a seed into bulk *operands* of macro-ops.
 pub struct SplitMix(pub u64);
@@ -172,6 +209,26 @@ fn scalars_of(v: &Val) -> R<Vec<[u64; 4]>> {
 fn affines_of<G: Grp>(v: &Val) -> R<Vec<G::A>> {
     let l = get_list(v)?;
     l.iter().map(|x| G::ga(x)).collect()
+}
+
+/// A caller-defined scalar type: the scalar parameter of the multiplication routines is generic (S: Into<Repr>), so the
+/// conversion is caller code that runs inside the library call. This one calls back into the library (the other
+/// scalar-multiplication paths of the same curve) and checks that they agree.
+pub struct ReentScalar<G: Grp>(pub FrRepr, pub std::marker::PhantomData<G>);
+
+impl<G: Grp> From<ReentScalar<G>> for FrRepr {
+    fn from(s: ReentScalar<G>) -> FrRepr {
+        let one = G::A::one();
+        let k = FrRepr([0x9, 0, 1, 0]);
+        let a = one.mul(k);
+        let mut pre = [G::A::zero(); 3];
+        one.precomp_3(&mut pre);
+        let b = one.mul_precomp_3(k, &pre);
+        let mut c = one.into_projective();
+        c.mul_assign(k);
+        assert!(a == b && b == c, "nested scalar multiplications disagree");
+        s.0
+    }
 }
 
 pub fn run<G: Grp>(m: &mut Machine, name: &str, args: &[Val]) -> R<Out> {
@@ -291,6 +348,21 @@ pub fn run<G: Grp>(m: &mut Machine, name: &str, args: &[Val]) -> R<Out> {
             let mut x = p(0)?;
             x.mul_assign(k(1)?);
             ok1(G::wp(x))
+        }
+        // the same paths with a caller-defined scalar type whose conversion re-enters the library
+        "mul_re" => {
+            let mut x = p(0)?;
+            x.mul_assign(ReentScalar::<G>(k(1)?, std::marker::PhantomData));
+            ok1(G::wp(x))
+        }
+        "amul_re" => ok1(G::wp(a(0)?.mul(ReentScalar::<G>(k(1)?, std::marker::PhantomData)))),
+        "mul_pre3_re" => {
+            let pre = affines_of::<G>(arg(args, 2)?)?;
+            ok1(G::wp(a(0)?.mul_precomp_3(ReentScalar::<G>(k(1)?, std::marker::PhantomData), &pre)))
+        }
+        "mul_pre256_re" => {
+            let pre = affines_of::<G>(arg(args, 2)?)?;
+            ok1(G::wp(a(0)?.mul_precomp_256(ReentScalar::<G>(k(1)?, std::marker::PhantomData), &pre)))
         }
         "mulfr" => {
             let mut x = p(0)?;
@@ -536,7 +608,9 @@ pub fn run<G: Grp>(m: &mut Machine, name: &str, args: &[Val]) -> R<Out> {
         "dec_c" | "dec_u" | "dec_c_unchecked" | "dec_u_unchecked" => {
             let b = get_bytes(arg(args, 0)?)?;
             let checked = !name.ends_with("unchecked");
-            let r = if name.starts_with("dec_c") { decode::<G::C>(&b, checked)? } else { decode::<G::U>(&b, checked)? };
+            // optional second argument: placement of the encoding object (address modulo 16)
+            let k = if args.len() > 1 { n(1)? } else { 0 };
+            let r = if name.starts_with("dec_c") { decode_at::<G::C>(&b, checked, k)? } else { decode_at::<G::U>(&b, checked, k)? };
             Ok(match r {
                 Ok(pt) => Out::Ok(vec![G::wa(pt)]),
                 Err(e) => Out::Err(decode_err(&e)),
